@@ -115,16 +115,18 @@ def run(ctx):
     # key serialiser
     ser = [g for g in fx.doc["fns"] if g["path"].startswith("<crypto::PublicKey as") and g["path"].endswith("Serialize>::serialize")]
     if len(ser) == 1:
-        b = body_of(fx, ser[0]["key"])
-        shim = keys.find_shim_fn(fx)
-        sc = b.calls_named(shim["path"]) if shim else []
-        got = []
-        if len(sc) == 1:
-            for ai in range(4):
-                r = root_ids(b, sc[0][1]["args"][ai])
-                got.append(sorted(p[0][1] for (k, i, p) in r if k == "param" and i == 1 and p))
-        ctx.inst("C05/D1", "key serialiser writes type, scheme, hash algorithms and key material", got == [["typ"], ["scheme"], ["keyid_hash_algorithms"], ["value"]],
-                 "shim_public_key(self.%s)" % got, ser[0]["at"])
+        wf = keys.wire_form_args(ctx, ser[0]["key"])
+        got = {}
+        if wf:
+            wb, wt, parts = wf
+            for name in ("typ", "scheme", "keyid_hash_algorithms"):
+                got[name] = sorted({l.path[0][1] if (l.kind == "param" and l.data == 1 and l.path) else "?" for l in parts[name]})
+            # the key text is computed from the stored key bytes (and the key type, which selects the encoding)
+            got["value"] = sorted({l.path[0][1] if (l.kind == "param" and l.data == 1 and l.path) else "?" for l in parts["value"]})
+        okk = bool(wf) and got["typ"] == ["typ"] and got["scheme"] == ["scheme"] and got["keyid_hash_algorithms"] == ["keyid_hash_algorithms"] \
+            and "value" in got["value"] and set(got["value"]) <= {"value", "typ"}
+        ctx.inst("C05/D1", "key serialiser writes type, scheme, hash algorithms and key material", okk,
+                 "wire form built from self.%s" % got, ser[0]["at"])
     else:
         ctx.bad("C05/D1", "key serialiser", "not found")
     # ---- D2
